@@ -1,49 +1,7 @@
-"""Texts for MANIFEST.json (level claimed / trusted base per property)."""
+"""Texts for MANIFEST.json; the per-property texts live in config/Cxx.json ("text", "note")."""
+from checks_config import CHECKS
 
 HOOK_COMMITS = ["ad0b5fa"]
-
 NOT_APPLICABLE = {}
-
-COMMON_NOTE = ("Trusted: Lean 4.33 kernel; axioms propext/Classical.choice/Quot.sound only (audited per theorem each run); "
-               "the extractor and the differential harness; the Lean compiler only to execute the oracle. ")
-
-TEXTS = {
-    "C03": {
-        "text": "Theorems for chains of any length over any operators and atoms (Lemmas/Prec.lean, Props/C03.lean): chain_yield (nothing "
-                "lost or reordered), chain_wellGrouped (left operand binds >= parent, right operand > parent: five levels, left "
-                "associative), chain_unique (the only tree over that token sequence with this grouping), chain_reparse, spine_le_four "
-                "(the insertion loop descends at most four nodes: linear time), emb_insertT (the Expr-level loop of the parser model is "
-                "that abstract loop), gen_precedence_levels / gen_operators_have_levels by decide over the precedence table regenerated "
-                "from token.go; negated_operand_counterexample (kernel-checked) for the known printing defect. Tie: the full "
-                "expression parser model (scanner, token ring, parameter substitution, ParseExpr/parseUnaryExpr/parseCall/parseRegex/"
-                "ParseVarRef) is executed against the real ParseExpr on exhaustive small chains and random expressions.",
-        "note": COMMON_NOTE + "regexp.Compile, ParseFloat/FormatFloat and unicode.ToLower are oracle calls / parameters of the model (see evidence).",
-    },
-    "C06": {
-        "text": "Theorems for all strings: scan_quoteString (QuoteString(s) scans as one STRING with value s and stops exactly at the "
-                "closing quote, for every s without NUL/CR, at any cursor and before any following text), quoteString_contained (for "
-                "EVERY s: that STRING or a BADSTRING token - never a bad escape, never an early end, never absorbing what follows), "
-                "scan_quotedIdent_contained (same for double-quoted identifiers), bare_ident_scans (IdentNeedsQuotes(s)=false => s "
-                "written bare scans as IDENT s and QuoteIdent leaves it bare), keywords_need_quotes, over replacer tables regenerated "
-                "from /repo each run. The converse direction of IdentNeedsQuotes and multi-part names are tied by the property "
-                "oracle over the whole BMP and random strings, not by a theorem (stated in DESIGN.md).",
-        "note": COMMON_NOTE + "strings.NewReplacer and ToLower are re-implemented in the model and corresponded on the whole BMP.",
-    },
-    "C08": {
-        "text": "Theorems over the Lean model of ParseDuration/FormatDuration for all texts and all 64-bit values (parse_exact, "
-                "parse_complete, parse_overflow_rejected, parse_format, format_largest_unit) over unit/ladder tables regenerated from "
-                "/repo on every run; the hand-modelled control flow is tied to the code by differential execution (boundary sweep + "
-                "random) and by an exact big-integer property oracle on the implementation.",
-        "note": COMMON_NOTE + "Go int64 is modelled as Int with explicit wrap64; strconv/fmt %d are re-implemented in the model and corresponded.",
-    },
-    "C05": {
-        "text": "Theorems over the Lean model of the rune reader and Scanner for all texts: reader_pos (stamped positions = line/column "
-                "with CRLF/CR folding), scan_tiles (remaining stream is a suffix: no rune skipped or read twice), scan_consumes, "
-                "scanAll_ends_with_EOF (termination with a linear token bound), tok_pos_exact (all kinds outside the string family); "
-                "string_pos_is_previous_rune + kernel-checked counterexamples for the two known findings (string positions, NUL). "
-                "Tie: differential execution of every token's kind/position/literal/consumed-count against the real Scanner "
-                "(consumed count from a verif-tagged accessor, independent of positions) plus an independent line/column oracle.",
-        "note": COMMON_NOTE + "Modelled, not verified: UTF-8 decoding (model starts from Go's rune sequence); the 3-slot rings "
-                "(pure-cursor model; the hook asserts push-back depth in the implementation on every run).",
-    },
-}
+TEXTS = {pid: {"text": c["text"], "note": c["note"], **({"technique": c["technique"]} if "technique" in c else {})}
+         for pid, c in CHECKS.items()}
